@@ -30,6 +30,7 @@ type srcGen struct {
 	cfg      GenCfg
 	caps     []string // captures declared so far in this command
 	subs     []string // inline subroutines declared so far in this command
+	loops    []string // named loops declared so far in this command (table-valued variables)
 	globals  []string // global patterns
 	trans    []string // transforms
 	nameCtr  int
@@ -194,7 +195,9 @@ func (g *srcGen) loopSuffix() string {
 	}
 	if g.cfg.NamedLoops && g.chance(0.12) {
 		g.feat("named-loop")
-		s += " named " + g.fresh("n")
+		ln := g.fresh("n")
+		g.loops = append(g.loops, ln)
+		s += " named " + ln
 	}
 	return s
 }
@@ -458,6 +461,7 @@ func GenSource(r *rand.Rand, cfg GenCfg) GenProgram {
 	for i := 0; i < ncmd; i++ {
 		g.caps = nil
 		g.subs = nil
+		g.loops = nil
 		amt, kind := g.amount()
 		g.feat("amount-" + kind)
 		body := g.body(cfg.MaxDepth, 1+g.pick(3))
@@ -470,8 +474,13 @@ func GenSource(r *rand.Rand, cfg GenCfg) GenProgram {
 				switch {
 				case x < 0.35:
 					items = append(items, quote(g.litString()))
-				case x < 0.55 && len(g.caps) > 0:
+				case x < 0.50 && len(g.caps) > 0:
 					items = append(items, g.caps[g.pick(len(g.caps))])
+				case x < 0.55 && len(g.loops)+len(g.subs)+len(g.globals) > 0:
+					// names that are not string captures: named loops (table-valued), subroutines, global patterns
+					other := append(append(append([]string{}, g.loops...), g.subs...), g.globals...)
+					g.feat("with-non-capture-name")
+					items = append(items, other[g.pick(len(other))])
 				case x < 0.7:
 					items = append(items, []string{"value", "matchNumber", "startOffset", "endOffset", "lineNumber", "columnNumber", "totalMatches", "filename"}[g.pick(8)])
 				case x < 0.9 && len(g.trans) > 0:
